@@ -47,19 +47,28 @@ def critical(ctx):
         dc = [e for e in tr.calls() if e.d.get("fi") is not None and e.fi.name == "_distn_from_counts"]
         ok = pa is not None and dc and dc[0].args[0] == P("ref_counts") and c08._is_ret(tr, dc[0], pa)
         ctx.ob("FRM", site, "drawn from the corrected reference leaf distribution", bool(ok), "", ch[0])
-        un = [e for e in tr.calls() if e.callee == ("lib", "numpy.unique")]
+        # the two halves are counted per leaf: np.unique(..., return_counts=True) or np.bincount(..., minlength=k)
+        un = [e for e in tr.calls() if e.callee in (("lib", "numpy.unique"), ("lib", "numpy.bincount"))]
         halves = []
         for e in un:
-            a = e.args[0].single_atom()
+            a = e.args[0].single_atom() if e.args else None
             if a is not None and a[0] == "sub" and a[1] == ch[0].result:
                 halves.append(a[2])
+        ctx.anchor(site, "the halves of the draw are counted per leaf (numpy.unique / numpy.bincount)", len(halves) >= 1, "")
         lo = atom(("slice", T.NONE, n, T.NONE))
         hi = atom(("slice", n, T.NONE, T.NONE))
         ctx.ob("PARTITION", site, "the draw is split into the complementary halves [:n] and [n:]", sorted(map(T.akey, halves)) == sorted(map(T.akey, [lo, hi])),
                "; ".join(q.short(h, 40) for h in halves), ch[0])
-    lp = [v for k, v in tr.loops.items() if k.endswith("#L1")]
-    it = lp[0]["iter"].single_atom() if lp else None
-    ctx.ob("FRM", site, "bootstrap_samples repetitions", it is not None and it[0] == "call" and it[1] == "range" and tuple(it[2]) == (A("bootstrap_samples"),), "")
+    col = q.collected(tr, ra[2][0]) if ra is not None and ra[0] == "call" and ra[2] else None
+    if col is None:
+        # the divergences are computed from a list of recorded pairs in a second pass: that list is what is built once per repetition
+        lp = [v for k, v in tr.loops.items() if k.endswith("#L1")]
+        it = lp[0]["iter"].single_atom() if lp else None
+        cnt = it[2][0] if it is not None and it[0] == "call" and it[1] == "range" and len(it[2]) == 1 else None
+    else:
+        cnt = col[1]
+    if ctx.anchor(site, "the bootstrap is a repetition over range(n)", cnt is not None, ""):
+        ctx.ob("FRM", site, "bootstrap_samples repetitions", cnt == A("bootstrap_samples"), q.short(cnt, 60))
     en = [e for e in tr.calls() if e.callee == ("lib", "scipy.stats.entropy")]
     ctx.ob("FRM", site, "divergence between the two halves' corrected distributions", len(en) == 1 and len([e for e in tr.calls() if e.d.get("fi") is not None and e.fi.name == "_distn_from_counts"]) == 3, "")
 
@@ -220,13 +229,22 @@ def bootstrap_chain(ctx):
     dc = [e for e in tr.calls() if e.d.get("fi") is not None and e.fi.name == "_distn_from_counts"]
     if len(ch) != 1 or len(dc) != 3:
         return  # reported by critical()
-    bins = atom(("call", "list", (atom(("call", "range", (atom(("call", "len", (P("ref_counts"),), ())),), ())),), ()))
-    ctx.ob("FRM", site, "the draw is over the leaf indices 0..k-1", ch[0].args[:1] == (bins,), q.short(ch[0].args[0], 80) if ch[0].args else "", ch[0])
+    k_ = atom(("call", "len", (P("ref_counts"),), ()))
+    bins = atom(("call", "list", (atom(("call", "range", (k_,), ())),), ()))
+    ctx.ob("FRM", site, "the draw is over the leaf indices 0..k-1", ch[0].args[:1] in ((bins,), (atom(("call", "numpy.arange", (k_,), ())),), (k_,)), q.short(ch[0].args[0], 80) if ch[0].args else "", ch[0])
     n = P("sample_size")
     want_halves = [atom(("slice", T.NONE, n, T.NONE)), atom(("slice", n, T.NONE, T.NONE))]
     seen = []
     for e in dc[1:]:
         a = e.args[0].single_atom()
+        if a is not None and a[0] == "call" and a[1] == "numpy.bincount":
+            # counts per leaf index directly: bincount(half, minlength=k) is the histogram over all leaves in leaf order, missing leaves 0
+            h = a[2][0].single_atom() if a[2] else None
+            ok = h is not None and h[0] == "sub" and h[1] == ch[0].result and dict(a[3]).get("minlength") == k_
+            seen.append(h[2] if ok else None)
+            ctx.ob("FRM", site, "each half becomes a histogram over ALL leaves in leaf order (missing leaves 0) before the correction", ok,
+                   "numpy.bincount(half, minlength=len(ref_counts)) expected; found %s" % q.short(e.args[0], 200), e)
+            continue
         ok = a is not None and a[0] == "sub" and a[2] == const("count")
         chain, base = _mchain(a[1]) if ok else ([], None)
         names = [c_[0] for c_ in chain]
@@ -255,27 +273,42 @@ def bootstrap_chain(ctx):
     # the pair appended is (first half, second half) and the divergence is taken in that order
     en = [e for e in tr.calls() if e.callee == ("lib", "scipy.stats.entropy")]
     ap = [e for e in tr.of("localmut") if e.how == "method:append" and q.stack_has(e, site)]
-    ok = len(ap) == 1 and len(en) == 1
-    if ok:
-        pr = ap[0].value.single_atom()[1][0].single_atom()
-        ok = pr is not None and pr[0] in ("list", "tuple") and len(pr[1]) == 2 and c08._is_ret(tr, dc[1], pr[1][0]) is not None
-    ctx.ob("FRM", site, "one pair of corrected distributions is recorded per bootstrap repetition", ok, "", ap[0] if ap else None)
+    if ctx.anchor(site, "the pairs of distributions are recorded in a list, the divergences taken in a second pass", len(ap) == 1, ""):
+        ok = len(en) == 1
+        if ok:
+            pr = ap[0].value.single_atom()[1][0].single_atom()
+            ok = pr is not None and pr[0] in ("list", "tuple") and len(pr[1]) == 2 and c08._is_ret(tr, dc[1], pr[1][0]) is not None
+        ctx.ob("FRM", site, "one pair of corrected distributions is recorded per bootstrap repetition", ok, "", ap[0] if ap else None)
 
 
 def wrappers(ctx):
     for cname in ("KdqTreeStreaming", "KdqTreeBatch"):
         tr = ctx.trace(cname, "to_plotly_dataframe")
         fc = [e for e in tr.calls() if e.callee[0] == "foreign" and e.callee[2] == "to_plotly_dataframe"]
-        ok = len(fc) == 2
+        ok = 1 <= len(fc) <= 2
         if ok:
+            # one call per case, or one call with a conditional argument: the cases are the leaves of the argument under the call's guards
             given = T.mk_cmp("!=", P("input_cols"), T.NONE)
+            cases = set()
             for e in fc:
-                cols = e.args[3] if len(e.args) > 3 else dict(e.kwargs).get("input_cols")
-                if q.has_guard(e, given):
-                    ok = ok and cols == P("input_cols")
-                else:
-                    ok = ok and q.has_guard(e, T.mk_not(given)) and cols == A("_input_cols")
-                ok = ok and tuple(e.args[:3]) == (P("tree_id1"), P("tree_id2"), P("max_depth"))
+                b = q.bind(e) if e.d.get("fi") is not None else {}
+                cols = b.get("input_cols", e.args[3] if len(e.args) > 3 else dict(e.kwargs).get("input_cols"))
+                if cols is None:
+                    ok = False
+                    continue
+                for conds, l in q.ite_leaves(cols):
+                    cs_ = [y for x in conds for y in q.conjuncts(x)] + q.guards(e)
+                    if given in cs_:
+                        cases.add("given")
+                        ok = ok and l == P("input_cols")
+                    elif T.mk_not(given) in cs_:
+                        cases.add("absent")
+                        ok = ok and l == A("_input_cols")
+                    else:
+                        ok = False
+                three = (b.get("tree_id1"), b.get("tree_id2"), b.get("max_depth")) if b else tuple(e.args[:3])
+                ok = ok and three == (P("tree_id1"), P("tree_id2"), P("max_depth"))
+            ok = ok and cases == {"given", "absent"}
         ctx.ob("FWD", DET + ".to_plotly_dataframe", "column names given by the caller are used, else those seen at validation [%s]" % cname, ok, "")
     ti = ctx.trace("KdqTreeStreaming", "__init__")
     rs = [e for e in ti.raises() if e.exc == "ValueError" and q.stack_has(e, "KdqTreeStreaming.__init__")]
